@@ -341,12 +341,21 @@ def C10(tier):
     return dict(obligations=obs)
 
 
+def lp_kernel_ob(tier):
+    q = tier == "quick"
+    grid = [(2, 1), (2, 2), (3, 2), (3, 3), (4, 3), (4, 4)] if q else [(2, 1), (2, 2), (3, 2), (3, 3), (4, 3), (4, 4), (4, 5), (5, 4), (5, 5)]
+    return dict(name="longest-path-kernel", pkg="internal/phase2", func="Harness_LP", consts={}, cubes=dag_cubes(grid), enctimeout=120, qtimeout=60,
+                bounds="real LongestPath.Process on all canonical connected DAGs with (N,M) in %s (cubes); symbolic: the IsReversed flag of every edge "
+                       "(any edge may be a reversed one after cycle breaking)" % grid)
+
+
 def C11(tier):
     q = tier == "quick"
     sh = shapes(5, 3) + shapes(3, 4) if q else shapes(5, 5, selfloops=False) + shapes(4, 4) + shapes(6, 4, selfloops=False)
     obs = [layout_ob("layout-lp-min-layers", "Harness_E_C11", sh, {"P1": [0, 1]},
                      consts={"P2": 1, "P4": 1, "P5": 0, "SZ": 0, "LSFIX": 1, "NSFIX": 1},
-                     bounds="canonical edge lists (%s) x {greedy,dfs} x longest-path layering" % nm(q, "N<=5 M<=3 and N<=3 M<=4", "N<=5 M<=5 loop-free, N<=4 M<=4 with self-loops, N<=6 M<=4 loop-free"))]
+                     bounds="canonical edge lists (%s) x {greedy,dfs} x longest-path layering" % nm(q, "N<=5 M<=3 and N<=3 M<=4", "N<=5 M<=5 loop-free, N<=4 M<=4 with self-loops, N<=6 M<=4 loop-free")),
+           lp_kernel_ob(tier)]
     return dict(obligations=obs)
 
 
